@@ -440,7 +440,13 @@ def locate(src):
         for n in ast.walk(st):
             if isinstance(n, ast.Name) and n.id == "TZID": raise Untranslatable("_parse_date_value: TZID used outside the attach statement")
     if len(attach) != 1: raise Untranslatable("_parse_date_value: expected one `if TZID is not None:` statement")
-    return {"pdv": pdv, "prefix": prefix, "parms": parms, "attach": attach, "rfc_args": [a.arg for a in rfc.args.args], "pdv_args": [a.arg for a in pdv.args.args]}
+    disp = None
+    try:
+        els = rfc.body[k + 1].orelse
+        disp = next(st for st in els if isinstance(st, ast.For))
+    except Exception:
+        pass
+    return {"dispatch": disp, "pdv": pdv, "prefix": prefix, "parms": parms, "attach": attach, "rfc_args": [a.arg for a in rfc.args.args], "pdv_args": [a.arg for a in pdv.args.args]}
 
 def strip_docstring(body):
     return body[1:] if body and isinstance(body[0], ast.Expr) and isinstance(body[0].value, ast.Constant) and isinstance(body[0].value.value, str) else body
@@ -1056,6 +1062,102 @@ def translate_rule_parser(src):
     fps["_rrulestr.__call__"] = fingerprint([fn])
     return "\n".join(out), fps
 
+# ---------------------------------------------------------------------------------------------------------------------
+# _rrulestr._parse_rfc: the LINE DISPATCH LOOP (`for line in lines:` in the multi-line branch)  ->  Gen.rrsStepLine
+#
+# The loop body is matched statement by statement; the property names, the accepted RDATE parameter, the separators and
+# the exception kinds are taken from the source.  The collected lists are the fields of `RRuleStr.Acc` of the same names.
+# A call `self._parse_date_value(value, parms, TZID_NAMES, ignoretz, tzids, tzinfos)` is represented by its parameter check
+# (`dateParmsOk parms`) and one record `(text, parms, options)` per `,`-separated value — what `Gen.rrsParseDateValue` yields
+# for values read as naive datetimes (obligation gen_parse_date_value_naive); `dtstart = dtvals[0]` after `len(dtvals) != 1`
+# is the record of the whole value.
+
+def translate_dispatch(rfc, k):
+    def cname(n): return getattr(n, "id", None)
+    rest = rfc.body[k + 1:]
+    if not (len(rest) == 1 and isinstance(rest[0], ast.If) and isinstance(rest[0].body[0], ast.Return)): raise Untranslatable("_parse_rfc: after the unfold block")
+    els = rest[0].orelse
+    inits = [cname(st.targets[0]) for st in els[:4] if isinstance(st, ast.Assign) and isinstance(st.value, ast.List) and not st.value.elts]
+    if inits != ["rrulevals", "rdatevals", "exrulevals", "exdatevals"] or not isinstance(els[4], ast.For): raise Untranslatable("_parse_rfc: list initialisation")
+    f = els[4]
+    b = f.body
+    if not (cname(f.target) == "line" and cname(f.iter) == "lines" and not f.orelse and len(b) == 7): raise Untranslatable("_parse_rfc: dispatch loop")
+    # 0. if not line: continue
+    if not (isinstance(b[0], ast.If) and isinstance(b[0].test, ast.UnaryOp) and cname(b[0].test.operand) == "line" and isinstance(b[0].body[0], ast.Continue) and not b[0].orelse):
+        raise Untranslatable("_parse_rfc: empty-line test")
+    # 1. if line.find(':') == -1: name = "RRULE"; value = line  else: name, value = line.split(':', 1)
+    i1 = b[1]
+    t = i1.test
+    if not (isinstance(i1, ast.If) and isinstance(t, ast.Compare) and t.left.func.attr == "find" and cname(t.left.func.value) == "line" and isinstance(t.ops[0], ast.Eq)
+            and isinstance(t.comparators[0], ast.UnaryOp) and t.comparators[0].operand.value == 1 and len(t.left.args[0].value) == 1
+            and len(i1.body) == 2 and cname(i1.body[0].targets[0]) == "name" and isinstance(i1.body[0].value, ast.Constant)
+            and cname(i1.body[1].targets[0]) == "value" and cname(i1.body[1].value) == "line"
+            and len(i1.orelse) == 1 and [cname(e) for e in i1.orelse[0].targets[0].elts] == ["name", "value"]
+            and i1.orelse[0].value.func.attr == "split" and cname(i1.orelse[0].value.func.value) == "line"
+            and [a.value for a in i1.orelse[0].value.args] == [t.left.args[0].value, 1]):
+        raise Untranslatable("_parse_rfc: name/value split")
+    colon, dflt = t.left.args[0].value, i1.body[0].value.value
+    if colon != ":": raise Untranslatable("_parse_rfc: separator %r (ICal.splitColon1 splits at ':')" % colon)
+    # 2-5. parms = name.split(';'); if not parms: raise; name = parms[0]; parms = parms[1:]
+    if not (cname(b[2].targets[0]) == "parms" and b[2].value.func.attr == "split" and cname(b[2].value.func.value) == "name" and len(b[2].value.args) == 1
+            and isinstance(b[3], ast.If) and isinstance(b[3].test, ast.UnaryOp) and cname(b[3].test.operand) == "parms" and isinstance(b[3].body[0], ast.Raise)
+            and cname(b[4].targets[0]) == "name" and cname(b[4].value.value) == "parms" and b[4].value.slice.value == 0
+            and cname(b[5].targets[0]) == "parms" and cname(b[5].value.value) == "parms" and b[5].value.slice.lower.value == 1 and b[5].value.slice.upper is None):
+        raise Untranslatable("_parse_rfc: parameter split")
+    semi = b[2].value.args[0].value
+    exc3 = b[3].body[0].exc.func.id
+    # 6. the if/elif chain on the property name
+    def pdv_call(n):
+        return (isinstance(n, ast.Call) and isinstance(n.func, ast.Attribute) and n.func.attr == "_parse_date_value" and cname(n.func.value) == "self"
+                and [cname(a) for a in n.args] == ["value", "parms", "TZID_NAMES", "ignoretz", "tzids", "tzinfos"] and not n.keywords)
+    def raise_kind(st):
+        return st.exc.func.id if isinstance(st, ast.Raise) and isinstance(st.exc, ast.Call) else None
+    arms, node = [], b[6]
+    while True:
+        if not (isinstance(node, ast.If) and isinstance(node.test, ast.Compare) and cname(node.test.left) == "name" and isinstance(node.test.ops[0], ast.Eq)
+                and isinstance(node.test.comparators[0], ast.Constant)):
+            raise Untranslatable("_parse_rfc: dispatch chain")
+        prop, body = node.test.comparators[0].value, node.body
+        if len(body) == 2 and isinstance(body[0], ast.For) and cname(body[0].target) == "parm" and cname(body[0].iter) == "parms" \
+           and isinstance(body[1], ast.Expr) and body[1].value.func.attr == "append" and [cname(a) for a in body[1].value.args] == ["value"]:
+            lst = cname(body[1].value.func.value)
+            fb = body[0].body
+            if len(fb) == 1 and raise_kind(fb[0]):
+                arm = "if !parms.isEmpty then .error .%s else .ok { acc with %s := acc.%s ++ [value] }" % (raise_kind(fb[0]), lst, lst)
+            elif len(fb) == 1 and isinstance(fb[0], ast.If) and isinstance(fb[0].test, ast.Compare) and cname(fb[0].test.left) == "parm" \
+                 and isinstance(fb[0].test.ops[0], ast.NotEq) and raise_kind(fb[0].body[0]) and not fb[0].orelse:
+                arm = "if parms.any (· != RRuleStr.lit \"%s\") then .error .%s else .ok { acc with %s := acc.%s ++ [value] }" % (
+                    fb[0].test.comparators[0].value, raise_kind(fb[0].body[0]), lst, lst)
+            else: raise Untranslatable("_parse_rfc: parameter loop of %s" % prop)
+        elif len(body) == 1 and isinstance(body[0], ast.Expr) and isinstance(body[0].value, ast.Call) and body[0].value.func.attr == "extend" and pdv_call(body[0].value.args[0]):
+            lst = cname(body[0].value.func.value)
+            arm = "do\n      let _ ← RRuleStr.dateParmsOk parms\n      .ok { acc with %s := acc.%s ++ (ICal.splitOnChar ',' value).map (fun d => (d, parms, po)) }" % (lst, lst)
+        elif len(body) == 3 and cname(body[0].targets[0]) == "dtvals" and pdv_call(body[0].value) and isinstance(body[1], ast.If) \
+             and isinstance(body[1].test, ast.Compare) and cname(body[1].test.left.func) == "len" and cname(body[1].test.left.args[0]) == "dtvals" \
+             and isinstance(body[1].test.ops[0], ast.NotEq) and body[1].test.comparators[0].value == 1 and raise_kind(body[1].body[0]) \
+             and cname(body[2].targets[0]) == "dtstart" and cname(body[2].value.value) == "dtvals" and body[2].value.slice.value == 0:
+            arm = ("do\n      let _ ← RRuleStr.dateParmsOk parms\n      if (ICal.splitOnChar ',' value).length != 1 then .error .%s\n"
+                   "      else .ok { acc with dtstart := some (value, parms, po) }" % raise_kind(body[1].body[0]))
+        else: raise Untranslatable("_parse_rfc: arm of %s" % prop)
+        arms.append((prop, arm))
+        if len(node.orelse) == 1 and isinstance(node.orelse[0], ast.If): node = node.orelse[0]; continue
+        if len(node.orelse) == 1 and raise_kind(node.orelse[0]): last = raise_kind(node.orelse[0]); break
+        raise Untranslatable("_parse_rfc: end of the dispatch chain")
+    chain = "\n  else ".join('if name == RRuleStr.lit "%s" then %s' % (p_, a_) for p_, a_ in arms)
+    text = ("/-- translated from `rrule.py:_rrulestr._parse_rfc`: the body of `for line in lines:` in the multi-line branch (the property / parameter\n"
+            "    split and the dispatch on RRULE / RDATE / EXRULE / EXDATE / DTSTART); the collected lists are the fields of `RRuleStr.Acc` -/\n"
+            "def rrsStepLine (po : RRuleStr.ParseOpts) (acc : RRuleStr.Acc) (line : StrPy.Str) : Py.R RRuleStr.Acc :=\n"
+            "  if line.isEmpty then .ok acc else\n"
+            "  let (name, value) : StrPy.Str × StrPy.Str :=\n"
+            "    if !line.contains %s then (RRuleStr.lit \"%s\", line)\n"
+            "    else match ICal.splitColon1 line with\n      | some (n, v) => (n, v)\n      | none => (RRuleStr.lit \"%s\", line)\n"
+            "  let parms := ICal.splitOnChar %s name\n"
+            "  if parms.isEmpty then .error .%s else\n"
+            "  let name := parms.headD []\n"
+            "  let parms := parms.drop 1\n"
+            "  %s\n  else .error .%s\n" % (lean_char(colon), dflt, dflt, lean_char(semi), exc3, chain, last))
+    return text, {"_rrulestr._parse_rfc[dispatch]": fingerprint([f])}
+
 def translate_all(src):
     loc = locate(src)
     out, fps = [], {}
@@ -1123,6 +1225,11 @@ def translate_all(src):
                "    .ok (date.1, tzinfo))\n" % (f2.iter.args[0].value, lean_char(f2.iter.args[0].value)))
     fps["_rrulestr._parse_date_value"] = fingerprint([pdv])
     fps.pop("_rrulestr._parse_date_value[parms]", None); fps.pop("_rrulestr._parse_date_value[attach]", None)    # the whole method now
+    rfc_tree = ast.parse(open(os.path.join(src, "rrule.py")).read())
+    rfc = find_function(rfc_tree, "_rrulestr._parse_rfc")
+    kk = next(i for i, st in enumerate(rfc.body) if isinstance(st, ast.If) and isinstance(st.test, ast.Name) and st.test.id == "unfold")
+    text, fp = translate_dispatch(rfc, kk)
+    out.append(text); fps.update(fp)
     text, fp = translate_rrule_str(src)
     out.append(text); fps.update(fp)
     text, fp = translate_rule_parser(src)
